@@ -353,7 +353,7 @@ type isoClass struct {
 }
 
 func isoClasses() []isoClass {
-	body := `<mj-body><mj-section><mj-column><mj-text css-class="ka">Hello</mj-text><mj-button mj-class="m1" href="u">Go</mj-button><mj-divider/></mj-column></mj-section></mj-body>`
+	body := `<mj-body><mj-section><mj-column><mj-text css-class="ka">Hello <span class="ka">styled</span> <a class="kb" href="http://x/">l</a></mj-text><mj-button mj-class="m1" href="u">Go</mj-button><mj-divider/></mj-column></mj-section></mj-body>`
 	doc := func(head string) string { return "<mjml>" + head + body + "</mjml>" }
 	return []isoClass{
 		{"mj-attributes", doc(`<mj-head><mj-attributes><mj-all font-family="Lato"/><mj-text color="#ff0000" font-size="20px"/></mj-attributes></mj-head>`),
@@ -362,8 +362,8 @@ func isoClasses() []isoClass {
 			doc(`<mj-head><mj-attributes><mj-class name="m1" background-color="#eeeeee" font-size="30px"/></mj-attributes></mj-head>`)},
 		{"mj-font", doc(`<mj-head><mj-font name="Raleway" href="https://fonts.example/r.css"/></mj-head>`),
 			doc(`<mj-head><mj-font name="Pacifico" href="https://fonts.example/p.css"/></mj-head>`)},
-		{"inline-style", doc(`<mj-head><mj-style inline="inline">.ka { color: #123456; }</mj-style></mj-head>`),
-			doc(`<mj-head><mj-style inline="inline">.ka { text-decoration: underline; font-weight: bold; }</mj-style></mj-head>`)},
+		{"inline-style", doc(`<mj-head><mj-style inline="inline">.ka { color: #123456; } .kb { color: #ff0000; }</mj-style></mj-head>`),
+			doc(`<mj-head><mj-style inline="inline">.ka { text-decoration: underline; font-weight: bold; } .kb { color: #0000ff; }</mj-style></mj-head>`)},
 		{"mj-style", doc(`<mj-head><mj-style>.x { color: red; }</mj-style></mj-head>`), doc(`<mj-head><mj-style>.y { margin: 0; }</mj-style></mj-head>`)},
 		{"title-preview", doc(`<mj-head><mj-title>Title A</mj-title><mj-preview>Prev A</mj-preview></mj-head>`), doc(`<mj-head><mj-title>Title B</mj-title></mj-head>`)},
 		{"font-family-body", strings.Replace(doc(""), `<mj-text css-class="ka">`, `<mj-text css-class="ka" font-family="Roboto">`, 1), strings.Replace(doc(""), `<mj-text css-class="ka">`, `<mj-text css-class="ka" font-family="Lato, Open Sans">`, 1)},
@@ -500,12 +500,36 @@ var apiDocs = []string{
 	`<mjml><mj-body><mj-section><mj-column><mj-navbar hamburger="hamburger"><mj-navbar-link href="/a">A</mj-navbar-link></mj-navbar><mj-social><mj-social-element name="facebook" href="h">F</mj-social-element></mj-social><mj-image src="i.png" fluid-on-mobile="true"/></mj-column></mj-section></mj-body></mjml>`,
 }
 
-const (
+var (
 	apiOkBits    = "1110111"
 	apiValBits   = "0000100"
 	apiStateBits = "0000000" // no document's tree carries render-to-render state (after the carousel-CSS fix)
 	apiAttrs     = "1,2,0,0,3,0,0"
 )
+
+// one pair of documents per class of head difference (shared with C07): history independence must hold across each of them
+func init() {
+	next := 4
+	for _, cl := range isoClasses() {
+		for _, d := range []string{cl.a, cl.b} {
+			apiDocs = append(apiDocs, d)
+			apiOkBits += "1"
+			if cl.name == "validation" {
+				apiValBits += "1"
+			} else {
+				apiValBits += "0"
+			}
+			apiStateBits += "0"
+			// documents whose heads define mj-attributes get distinct store ids, all others share store 0
+			if strings.Contains(d, "<mj-attributes>") {
+				apiAttrs += fmt.Sprintf(",%d", next)
+				next++
+			} else {
+				apiAttrs += ",0"
+			}
+		}
+	}
+}
 
 func runC08(res *Result, tier string, seed int64, replay string) {
 	res.Rule = "histories of calls to Render / RenderWithAST / RenderFromAST / NewFromAST / RenderComponentString (plus Render with cache and with debug) over five documents with conflicting heads (two with different mj-all / tag / mj-class defaults, one without head and with a group, one unparsable, one with a validation error); every history runs in a fresh process; each result is compared with the same call made FIRST in a fresh process, and with the Lean API model (driver `api`), which says which results must be the fresh ones and which trees are rendered with another document's store. Also: Render = class-order rewrite of RenderFromAST. Non-trivial = history with ≥2 calls on different documents; distinct by op list"
@@ -573,10 +597,20 @@ func runC08(res *Result, tier string, seed int64, replay string) {
 		}
 		// exhaustive pairs and a family of triples first
 		kinds := "RCDWFN"
+		// groups: the seven hand-written documents together, and each pair of documents that differ in one class of head feature
+		group := func(d int) int {
+			if d < 7 {
+				return 0
+			}
+			return 1 + (d-7)/2
+		}
 		for _, k1 := range kinds {
 			for d1 := range apiDocs {
 				for _, k2 := range kinds {
 					for d2 := range apiDocs {
+						if group(d1) != group(d2) {
+							continue
+						}
 						h := []string{fmt.Sprintf("%c%d", k1, d1), fmt.Sprintf("%c%d", k2, d2)}
 						if k1 == 'N' {
 							h = append(h, "T0", "T0")
@@ -626,7 +660,45 @@ func runC08(res *Result, tier string, seed int64, replay string) {
 			res.Disagree(Violation{Sig: "driver-bad-output", What: fmt.Sprint(err, pred)})
 			return
 		}
-		obs, crash := runAPIChild(apiJob{Docs: apiDocs, Ops: h, Full: true})
+		obs, crash := runAPIChild(apiJob{Docs: apiDocs, Ops: h, Full: false})
+		// digests first (cheap); the full HTML is fetched again only for a history that disagrees somewhere
+		needFull := false
+		for j, o := range h {
+			if j < len(obs) && o[0] != 'N' {
+				var want apiObs
+				if o[0] == 'T' {
+					p := strings.Split(strings.Fields(pred + " x")[min(j, len(strings.Fields(pred))-1)], ":")
+					if len(p) > 1 {
+						d, _ := strconv.Atoi(p[1])
+						want = treeFresh[d]
+					}
+				} else {
+					want = fresh[o]
+				}
+				if obs[j].Digest != want.Digest || obs[j].Err != want.Err {
+					needFull = true
+				}
+			}
+		}
+		if needFull {
+			obs, crash = runAPIChild(apiJob{Docs: apiDocs, Ops: h, Full: true})
+		} else {
+			for j := range obs {
+				// equal digests: reuse the reference HTML so that the comparisons below see equality
+				o := h[j]
+				switch o[0] {
+				case 'N':
+				case 'T':
+					p := strings.Split(preds[j], ":")
+					if len(p) > 1 {
+						d, _ := strconv.Atoi(p[1])
+						obs[j].HTML = treeFresh[d].HTML
+					}
+				default:
+					obs[j].HTML = fresh[o].HTML
+				}
+			}
+		}
 		distinctDocs := map[byte]bool{}
 		for _, o := range h {
 			if o[0] != 'T' {
